@@ -43,6 +43,9 @@ def P(colls, predicate, corr, quick, thorough, **kw):
     d = dict(colls=colls, predicate=predicate, corr=[(MODEL, None, None)] + corr,
              batches=dict(quick=quick, thorough=thorough))
     d.update(kw)
+    ex = d.pop('extra', None)
+    if ex:
+        d['batches'] = dict(quick=quick + ex['quick'], thorough=thorough + ex['thorough'])
     return d
 
 
@@ -53,7 +56,7 @@ PROPS = {
              [(['ANS'], ['keytree'], KQ)],
              [('debug', 'key', 400, 80, None), ('release', 'key', 60, 600, None), ('release', 'keyx', 1, 3, None)],
              [('debug', 'key', 4000, 80, None), ('release', 'key', 600, 600, None), ('release', 'key', 40, 8000, {'ITV_SNAP_EVERY': '16'}), ('release', 'keyx', 1, 4, None)],
-             sample_ops=KQ),
+             sample_ops=KQ, extra=dict(quick=[('debug', 'keyedge', 150, 80, None)], thorough=[('debug', 'keyedge', 1500, 80, None), ('release', 'keyedge', 100, 600, None)])),
     'C02': P(TREES,
              [(['INV_RB', 'INV_BST', 'INV_HEIGHT', 'INV_LINKS'], TREES, None)],
              [(['SHAPE'], TREES, None)],
@@ -64,49 +67,49 @@ PROPS = {
               ('release', 'map', 300, 1500, None), ('release', 'set', 300, 1500, None), ('release', 'key', 300, 1500, None),
               ('release', 'map', 20, 20000, {'ITV_SNAP_EVERY': '64'}), ('release', 'key', 20, 20000, {'ITV_SNAP_EVERY': '64'}),
               ('release', 'mapx', 1, 6, None), ('release', 'setx', 1, 6, None), ('release', 'keyx', 1, 4, None)],
-             sample_ops=['I', 'D', 'X']),
+             sample_ops=['I', 'D', 'X'], extra=dict(quick=[('debug', 'keyedge', 150, 80, None), ('debug', 'mapedge', 60, 80, None)], thorough=[('debug', 'keyedge', 1500, 80, None), ('release', 'keyedge', 100, 600, None), ('debug', 'mapedge', 600, 80, None)])),
     'C03': P(['seg'],
              [(['SPEC'] + DEAD, ['seg'], ['Q'])],
              [(['ANS'], ['seg'], ['Q'])],
              [('debug', 'seg', 600, 40, None), ('release', 'seg', 100, 400, None), ] + seg32(),
              [('debug', 'seg', 6000, 40, None), ('release', 'seg', 1500, 400, None), ] + seg32(),
-             sample_ops=['Q']),
+             sample_ops=['Q'], extra=dict(quick=[('debug', 'segwide', 150, 50, None)], thorough=[('debug', 'segwide', 1500, 50, None), ('release', 'segwide', 200, 400, None)])),
     'C04': P(['maptree'],
              [(['SPEC'] + DEAD, ['maptree'], ['G', 'E', 'I', 'D', 'C']), (['ABS'], ['maptree'], ['I', 'D', 'C', 'G', 'E'])],
              [(['ANS'], ['maptree'], ['G', 'E'])],
              [('debug', 'map', 400, 80, None), ('release', 'map', 40, 1500, None), ('release', 'mapx', 1, 5, None)],
              [('debug', 'map', 4000, 80, None), ('release', 'map', 400, 1500, None), ('release', 'mapx', 1, 6, None)],
-             sample_ops=['G', 'D', 'I']),
+             sample_ops=['G', 'D', 'I'], extra=dict(quick=[('debug', 'mapedge', 60, 80, None)], thorough=[('debug', 'mapedge', 600, 80, None)])),
     'C05': P(['settree'],
              [(['SPEC'] + DEAD, ['settree'], ['G', 'E', 'I', 'D', 'C']), (['ABS'], ['settree'], ['I', 'D', 'C', 'G', 'E'])],
              [(['ANS'], ['settree'], ['G', 'E'])],
              [('debug', 'set', 400, 80, None), ('release', 'set', 40, 1500, None), ('release', 'setx', 1, 5, None)],
              [('debug', 'set', 4000, 80, None), ('release', 'set', 400, 1500, None), ('release', 'setx', 1, 6, None)],
-             sample_ops=['G', 'D', 'I']),
+             sample_ops=['G', 'D', 'I'], extra=dict(quick=[('debug', 'mapedge', 60, 80, None)], thorough=[('debug', 'mapedge', 600, 80, None)])),
     'C06': P(['keytree'],
              [(['SPEC'] + DEAD, ['keytree'], ['G'])],
              [(['ANS'], ['keytree'], ['G'])],
              [('debug', 'key', 400, 80, None), ('release', 'key', 60, 600, None), ('release', 'keyx', 1, 3, None)],
              [('debug', 'key', 4000, 80, None), ('release', 'key', 600, 600, None), ('release', 'keyx', 1, 4, None)],
-             sample_ops=['G']),
+             sample_ops=['G'], extra=dict(quick=[('debug', 'keyedge', 150, 80, None)], thorough=[('debug', 'keyedge', 1500, 80, None), ('release', 'keyedge', 100, 600, None)])),
     'C07': P(['keytree', 'keylist'],
              [(['SPEC'] + DEAD, ['keytree', 'keylist'], ['V'])],
              [(['ANS'], ['keytree', 'keylist'], ['V'])],
              [('debug', 'key', 400, 80, None), ('release', 'key', 60, 600, None), ('release', 'keyx', 1, 3, None)],
              [('debug', 'key', 4000, 80, None), ('release', 'key', 600, 600, None), ('release', 'keyx', 1, 4, None)],
-             sample_ops=['V']),
+             sample_ops=['V'], extra=dict(quick=[('debug', 'keyedge', 150, 80, None)], thorough=[('debug', 'keyedge', 1500, 80, None), ('release', 'keyedge', 100, 600, None)])),
     'C08': P(['maptree', 'settree'],
              [(['SPEC', 'ABS'] + DEAD, ['maptree', 'settree'], ['F', 'FB', 'FT', 'W', 'X'])],
              [(['ANS'], ['maptree', 'settree'], ['F', 'FB', 'FT', 'W', 'X'])],
              [('debug', 'map', 300, 80, None), ('debug', 'set', 300, 80, None), ('release', 'mapx', 1, 5, None), ('release', 'setx', 1, 5, None)],
              [('debug', 'map', 3000, 80, None), ('debug', 'set', 3000, 80, None), ('release', 'map', 300, 1500, None), ('release', 'set', 300, 1500, None), ('release', 'mapx', 1, 6, None), ('release', 'setx', 1, 6, None)],
-             sample_ops=['F', 'FB', 'FT', 'W', 'X']),
+             sample_ops=['F', 'FB', 'FT', 'W', 'X'], extra=dict(quick=[('debug', 'mapedge', 60, 80, None)], thorough=[('debug', 'mapedge', 600, 80, None)])),
     'C09': P(['settree'],
              [(['SPEC'] + DEAD, ['settree'], ['A', 'B', 'WF', 'WB'])],
              [(['ANS'], ['settree'], ['A', 'B', 'WF', 'WB'])],
              [('debug', 'set', 400, 80, None), ('release', 'set', 40, 1500, None), ('release', 'setx', 1, 5, None)],
              [('debug', 'set', 4000, 80, None), ('release', 'set', 400, 1500, None), ('release', 'setx', 1, 6, None)],
-             sample_ops=['A', 'B', 'WF', 'WB']),
+             sample_ops=['A', 'B', 'WF', 'WB'], extra=dict(quick=[('debug', 'mapedge', 60, 80, None)], thorough=[('debug', 'mapedge', 600, 80, None)])),
     'C10': P(ALL,
              [(DEAD + ['INV_LINKS'], ALL, None)],
              [(['SHAPE', 'STATE', 'CHUNKS', 'LAYOUT'], ALL, None)],
@@ -116,7 +119,7 @@ PROPS = {
              [('debug', 'map', 1500, 80, None), ('debug', 'set', 1500, 80, None), ('debug', 'key', 1500, 80, None), ('debug', 'seg', 3000, 40, None),
               ('release', 'map', 300, 1500, None), ('release', 'set', 300, 1500, None), ('release', 'key', 300, 1500, None), ('release', 'seg', 1000, 400, None),
               ('debug', 'mapx', 1, 5, None), ('debug', 'setx', 1, 5, None), ('debug', 'keyx', 1, 4, None), ] + layout() + seg32('debug'),
-             corpus_builds=['debug', 'release']),
+             corpus_builds=['debug', 'release'], extra=dict(quick=[('debug', 'keyedge', 150, 80, None), ('debug', 'mapedge', 60, 80, None), ('debug', 'segwide', 150, 50, None)], thorough=[('debug', 'keyedge', 1500, 80, None), ('release', 'keyedge', 100, 600, None), ('debug', 'mapedge', 600, 80, None), ('debug', 'segwide', 1500, 50, None), ('release', 'segwide', 200, 400, None)])),
     'C11': P(TREES,
              [(['INV_POOL', 'BOUND'], TREES, None)],
              [(['SLOTS'], TREES, None)],
@@ -124,26 +127,26 @@ PROPS = {
               ('release', 'map', 30, 1500, None), ('release', 'set', 30, 1500, None), ('release', 'key', 30, 1500, None), ('release', 'churn', 6, 4000, {'ITV_SNAP_EVERY': '8'})],
              [('debug', 'map', 2000, 80, None), ('debug', 'set', 2000, 80, None), ('debug', 'key', 2000, 80, None),
               ('release', 'map', 300, 1500, None), ('release', 'set', 300, 1500, None), ('release', 'key', 300, 1500, None), ('release', 'churn', 30, 40000, {'ITV_SNAP_EVERY': '64'})],
-             sample_ops=['I', 'D', 'C', 'X']),
+             sample_ops=['I', 'D', 'C', 'X'], extra=dict(quick=[('debug', 'keyedge', 150, 80, None), ('debug', 'mapedge', 60, 80, None)], thorough=[('debug', 'keyedge', 1500, 80, None), ('release', 'keyedge', 100, 600, None), ('debug', 'mapedge', 600, 80, None)])),
     'C12': P(ALL,
              [(['TWIN'], ALL, None)],
              [],
              [('debug', 'twin', 400, 40, None)],
              [('debug', 'twin', 6000, 40, None), ('release', 'twin', 600, 400, None)],
-             sample_ops=['C']),
+             sample_ops=['C'], extra=dict(quick=[], thorough=[])),
     'C13': P(LISTS,
              [(['SPEC', 'ABS'] + DEAD, LISTS, None)],
              [(['ANS', 'STATE'], LISTS, None)],
              [('debug', 'map', 300, 80, None), ('debug', 'set', 300, 80, None), ('debug', 'key', 300, 80, None), ('release', 'key', 60, 600, None),
               ('release', 'mapx', 1, 5, None), ('release', 'setx', 1, 5, None), ('release', 'keyx', 1, 3, None)],
              [('debug', 'map', 3000, 80, None), ('debug', 'set', 3000, 80, None), ('debug', 'key', 3000, 80, None), ('release', 'key', 600, 600, None),
-              ('release', 'mapx', 1, 6, None), ('release', 'setx', 1, 6, None), ('release', 'keyx', 1, 4, None)]),
+              ('release', 'mapx', 1, 6, None), ('release', 'setx', 1, 6, None), ('release', 'keyx', 1, 4, None)], extra=dict(quick=[('debug', 'keyedge', 150, 80, None), ('debug', 'mapedge', 60, 80, None)], thorough=[('debug', 'keyedge', 1500, 80, None), ('release', 'keyedge', 100, 600, None), ('debug', 'mapedge', 600, 80, None)])),
     'C14': P(['seg'],
              [(['LAYOUTSPEC'], ['seg'], None), (DEAD, ['seg'], ['N', 'I', 'Q'])],
              [(['LAYOUT'], ['seg'], None)],
              layout() + [('debug', 'seg', 300, 40, None)],
              layout(deep=True) + [('debug', 'seg', 3000, 40, None)],
-             sample_ops=['N', 'I', 'Q']),
+             sample_ops=['N', 'I', 'Q'], extra=dict(quick=[('debug', 'segwide', 150, 50, None)], thorough=[('debug', 'segwide', 1500, 50, None), ('release', 'segwide', 200, 400, None)])),
     'C15': P(['seg'],
              [(['TILING'], ['seg'], ['I']), (['SPEC'], ['seg'], ['Q'])],
              [(['CHUNKS'], ['seg'], ['I'])],
@@ -155,13 +158,13 @@ PROPS = {
              [(['CHUNKS'], ['seg'], ['Q'])],
              [('debug', 'seg', 600, 40, None), ('release', 'seg', 100, 400, None)],
              [('debug', 'seg', 6000, 40, None), ('release', 'seg', 1500, 400, None)],
-             sample_ops=['Q']),
+             sample_ops=['Q'], extra=dict(quick=[('debug', 'segwide', 150, 50, None)], thorough=[('debug', 'segwide', 1500, 50, None), ('release', 'segwide', 200, 400, None)])),
     'C17': P(['maptree', 'settree'],
              [(['SPEC'] + DEAD, ['maptree', 'settree'], ['CHK', 'HOLD'])],
              [(['ANS'], ['maptree', 'settree'], ['CHK', 'HOLD'])],
              [('debug', 'map', 300, 80, None), ('debug', 'set', 300, 80, None), ('release', 'hold', 1, 5, None)],
              [('debug', 'map', 3000, 80, None), ('debug', 'set', 3000, 80, None), ('release', 'map', 300, 1500, None), ('release', 'set', 300, 1500, None), ('release', 'hold', 1, 6, None)],
-             sample_ops=['CHK']),
+             sample_ops=['CHK'], extra=dict(quick=[('debug', 'mapedge', 60, 80, None)], thorough=[('debug', 'mapedge', 600, 80, None)])),
     'C18': P(ALL,
              [(['TORN', 'INV_RB', 'INV_BST', 'INV_LINKS', 'INV_POOL', 'CRASH', 'HANG', 'PANIC2'], ALL, None)],
              [(['EVSTATE'], ALL, None)],
@@ -172,11 +175,11 @@ PROPS = {
              [(['CAP'], ['keytree', 'keylist'], ['V'])],
              [('debug', 'key', 300, 80, None), ('release', 'key', 60, 600, None), ('release', 'export', 1, 2000, {'ITV_SNAP_EVERY': '1000000'})],
              [('debug', 'key', 3000, 80, None), ('release', 'key', 600, 600, None), ('release', 'export', 1, 5000, {'ITV_SNAP_EVERY': '1000000'})],
-             sample_ops=['V'], direct=dict(quick=['bigexport', 300000], thorough=['bigexport', 5000000])),
+             sample_ops=['V'], direct=dict(quick=['bigexport', 300000], thorough=['bigexport', 5000000]), extra=dict(quick=[('debug', 'keyedge', 150, 80, None)], thorough=[('debug', 'keyedge', 1500, 80, None), ('release', 'keyedge', 100, 600, None)])),
     'C20': P(['keytree', 'keylist'],
              [(['LIVEONLY'], ['keytree', 'keylist'], None)],
              [(['CALLS'], ['keytree'], None)],
              [('debug', 'key', 400, 80, None), ('release', 'key', 60, 600, None), ('release', 'keyx', 1, 3, None)],
              [('debug', 'key', 4000, 80, None), ('release', 'key', 600, 600, None), ('release', 'keyx', 1, 4, None)],
-             sample_ops=['I', 'QL', 'QE', 'QB', 'QT', 'G']),
+             sample_ops=['I', 'QL', 'QE', 'QB', 'QT', 'G'], extra=dict(quick=[('debug', 'keyedge', 150, 80, None)], thorough=[('debug', 'keyedge', 1500, 80, None), ('release', 'keyedge', 100, 600, None)])),
 }
